@@ -59,7 +59,7 @@ double check_reproduction(TasmanianSparseGrid const &g, CaseCtx &c, Rng &rng, st
         for(int i=0; i<n; i++) for(int j=0; j<d; j++){
             size_t q = (size_t) i * (size_t) d + (size_t) j;
             double width = hi[(size_t) j] - lo[(size_t) j];
-            double delta = 16.0 * eps * (std::fabs(lo[(size_t) j]) + std::fabs(hi[(size_t) j]) + width) + (cf ? 1e-10 * width : 0.0);
+            double delta = 16.0 * eps * (std::fabs(lo[(size_t) j]) + std::fabs(hi[(size_t) j]) + width) + (cf ? 1e-9 * width : 0.0);
             double toward = (x[q] < 0.5 * (lo[(size_t) j] + hi[(size_t) j])) ? 1.0 : -1.0;
             double nudge = 8.0 * eps * (std::fabs(lo[(size_t) j]) + std::fabs(hi[(size_t) j]) + width);
             if (x[q] <= lo[(size_t) j] + nudge) xe[q] = lo[(size_t) j] + nudge;
@@ -74,7 +74,7 @@ double check_reproduction(TasmanianSparseGrid const &g, CaseCtx &c, Rng &rng, st
         for(size_t q=0; q<y0.size(); q++) sens[q] = std::max(std::fabs(yp[q] - y0[q]), std::fabs(ym[q] - y0[q]));
         c.count("transformed_grids_with_measured_sensitivity");
     }
-    auto tol_at = [&](int i, int k)->double{ return tol + (sens.empty() ? 0.0 : 8.0 * sens[(size_t) i * (size_t) m + (size_t) k]); };
+    auto tol_at = [&](int i, int k)->double{ return tol + (sens.empty() ? 0.0 : 16.0 * sens[(size_t) i * (size_t) m + (size_t) k]); };
     double worst = 0.0;
     // route 1: evaluateBatch on all loaded points at once
     std::vector<double> y;
@@ -122,11 +122,16 @@ double check_reproduction(TasmanianSparseGrid const &g, CaseCtx &c, Rng &rng, st
 
 void mon_c01(CaseCtx &c, Rng &rng){
     GenOpts go; go.nonnested = false; go.min_outs = 1; go.max_points = c.thorough ? 1200 : 350; go.max_dims = c.thorough ? 4 : 3;
+    // 5% of the cases: larger wavelet grids grown by dynamic construction (irregular point sets, the sparse iterative solver with its
+    // un-pivoted ILU preconditioner is the only solver in this build)
+    bool big_wavelet = rng.coin(0.05);
+    if (big_wavelet){ go.families = (1u << fam_wavelet); go.max_points = 450; go.max_outs = 1; go.conformal = false; }
     HState h;
     if (!init_history(h, rng, go, c)){ emit_begin(c, h.cfg.json()); return; }
     emit_begin(c, h.cfg.json());
     HOpts ho; ho.set_coeffs = false; ho.max_points = go.max_points;
     int nsteps = rng.range(2, c.thorough ? 10 : 7);
+    if (big_wavelet){ ho.construction_bias = 8.0; ho.max_points = 900; nsteps = rng.range(6, 10); }
     double worst = 0.0;
     int supplying = 0;
     bool only_stable = true, constructed = false;
